@@ -69,6 +69,8 @@ def evaluate(ctx, progs, fuel="200000"):
                 samples_in.append(pid)
         else:
             k = reason.split(":")[0] + (":" + reason.split(":")[1] if reason.startswith(("traitcall:", "cget:", "call:", "constr:")) else "")
+            if reason.startswith("traitcall:receiver-") and reason.count(":") >= 2:
+                k = ":".join(reason.split(":")[:3]) + "(impl for an instance of a generic type, or a row whose function has another signature)"
             if k.startswith("call:builtin"):
                 b = reason.split(":")[2] if reason.count(":") >= 2 else "?"
                 k = "call:builtin:" + (b if b in ("ref", "ref_get", "ref_set", "array_get", "array_set", "vec_new", "vec_push", "vec_get", "vec_len", "string_get") else "extern")
@@ -124,6 +126,6 @@ def collect_and_evaluate(ctx):
     return evaluate(ctx, progs)
 
 ASSUMPTIONS = [
-    "type soundness: `sem_preserves_types_partial` is about `Sem` and the judgement `Wt` on the fragment `ValTy.okE` (closures and function values included; no references, vectors, arrays, trait objects, `go`; callees are fragment expressions of function type or the printing / conversion builtins; enum field reads under an arm that established the variant; trait calls on concretely annotated receivers with a dispatch row of the annotated signature); outside it soundness is only validated by the runs",
+    "type soundness: `sem_preserves_types_partial` is about `Sem` and the judgement `Wt` on the fragment `ValTy.okE` (closures and function values included; no references, vectors, arrays, trait objects, `go`; callees are fragment expressions of function type or the printing / conversion builtins; enum field reads under an arm that established the variant; trait calls on any receiver when the dispatch table passes `implsOk`, else on concretely annotated receivers with a dispatch row of the annotated signature); outside it soundness is only validated by the runs",
     "static dispatch: the oracle restores dynamic dispatch in the REAL Mono dump (key of the runtime receiver must be the key of the declared receiver type of the function mono chose) and compares `Sem` outcomes at the same fuel; programs whose plain run is not definite within the fuel are skipped",
 ]
